@@ -1,5 +1,6 @@
 import TextxVerif.Wire
 import TextxVerif.LinkLoc
+import TextxVerif.LinkLocSpec
 import TextxVerif.PosDict
 /-! Driver for the error-location / editor-support models (C28, C34).
 ops:
@@ -10,6 +11,8 @@ ops:
                                                            → {"err":{"kind","file","line","col"}}
                                                            | {"ok":[[[ref,start,end,file,ds,de]…]…]}   (one list per model)
                                                            | {"crash":true}
+     an "unresolvable" error carries in addition the declarative specification (LinkLocSpec.lean):
+       "spec": {"rounds":K+1,"file","line","col","asked":[id…]} | null
   {"op":"posdict","tree":{"id","s","e","kids":[…]}}        → {"dict":[[s,e,id]…]}
   {"op":"tools","files":…,"ans":…,"trees":[tree…]}         → the `error_loc` answer plus "dicts":[[[s,e,id]…]…]
 -/
@@ -86,10 +89,24 @@ partial def parseTree (j : Json) : Option PosDict.ONode := do
 def dictJson (t : PosDict.ONode) : Json :=
   Json.arr ((PosDict.posRuleDict t).map (fun it => Json.arr #[toJson it.1.1, toJson it.1.2, toJson it.2])).toArray
 
+/-- the declarative specification of the "unresolvable" outcome: computed from the reference
+lists and the answers alone (`giveUpRound`, `firstPending`, `lineColSpec`, `askTrace`) -/
+def specJson (files : List LinkLoc.FileSpec) (ans : Nat → Nat → LinkLoc.Answer) : Json :=
+  match LinkLoc.giveUpRound files ans (LinkLoc.enoughFuel files) with
+  | none => Json.null
+  | some K =>
+    match LinkLoc.firstPending files ans K with
+    | none => Json.null
+    | some (f, r) =>
+      let lc := LinkLoc.lineColSpec f.text r.pos
+      Json.mkObj [("rounds", toJson (K + 1)), ("file", optStrJson f.name), ("line", toJson lc.1),
+                  ("col", toJson lc.2), ("asked", toJson (LinkLoc.askTrace files ans K))]
+
 def runJson (files : List LinkLoc.FileSpec) (tbl : List (Nat × List LinkLoc.Answer)) : List (String × Json) :=
   match LinkLoc.run files (ansOf tbl) (LinkLoc.enoughFuel files) with
   | .err e => [("err", Json.mkObj [("kind", kindStr e.kind), ("file", optStrJson e.filename),
-                                   ("line", toJson e.line), ("col", toJson e.col)])]
+                                   ("line", toJson e.line), ("col", toJson e.col)])] ++
+      (if e.kind = .unresolvable then [("spec", specJson files (ansOf tbl))] else [])
   | .ok ms => [("ok", Json.arr (ms.map (fun m => Json.arr (m.posList.map entryJson).toArray)).toArray)]
   | .crash => [("crash", true)]
   | .fuel => [("err", "fuel")]
